@@ -101,6 +101,8 @@ pub fn base_prefix(region: &str, otaa: bool, base: &str) -> Vec<Ev> {
 
 /// `Case::draw` value that asks for the ADR back-off walk instead of two uplinks with an enumerated draw (nb front-end).
 const BACKOFF_WALK: u32 = 1000;
+/// ... and the one that asks for join attempts from the post-command state.
+const REJOIN: u32 = 1001;
 
 fn snap_hash(s: &VerifMac) -> u64 {
     let mut s = *s;
@@ -212,6 +214,28 @@ fn eval_nb(c: &Case) -> (Vec<(String, String)>, Option<u64>) {
         }
     }
     let h = snap_hash(&core.snap());
+    if c.draw == Some(REJOIN) {
+        // an OTAA join attempt from whatever the command left behind (its windows are computed from the same
+        // configuration), unanswered, then answered
+        for k in 0..2 {
+            let ev = if k == 0 {
+                Ev::JoinCycle { rx1: None, rx2: None }
+            } else {
+                Ev::JoinCycle {
+                    rx1: None,
+                    rx2: Some(Frame::JoinAccept { join_nonce: 11 + k, net_id: 0x13, devaddr: DEVADDR, dl_settings: 0, rx_delay: 1, cflist: None, tamper: Tamper::None, trunc: 0 }),
+                }
+            };
+            for m in core.apply(&ev) {
+                if let Resp::Panic(p) = &m.resp {
+                    let (s, w) = classify_at(p, "nb", &format!("join-after-{name}"), &c.dev.region, &m.before);
+                    v.push((s, format!("{w}; join attempt {k} after command {:?}", c.cmd.as_ref().map(|x| crate::ctx::hex(&x.bytes)))));
+                    return (v, Some(h));
+                }
+            }
+        }
+        return (v, Some(h));
+    }
     if c.draw == Some(BACKOFF_WALK) {
         // ADR back-off from whatever the command left behind, down to the lowest rate: the count of unanswered uplinks is
         // pre-loaded (through the session's serde form) to one short of every back-off step in turn
@@ -737,7 +761,8 @@ pub fn run(tier: Tier, replay: Option<&str>) {
                             }
                             if front == "nb" {
                                 record(&Case { draw: Some(BACKOFF_WALK), ..c.clone() });
-                                followups.fetch_add(1, Ordering::Relaxed);
+                                record(&Case { draw: Some(REJOIN), ..c.clone() });
+                                followups.fetch_add(2, Ordering::Relaxed);
                             }
                         }
                     });
@@ -755,7 +780,8 @@ pub fn run(tier: Tier, replay: Option<&str>) {
                                 }
                                 if front == "nb" {
                                     record(&Case { draw: Some(BACKOFF_WALK), ..c.clone() });
-                                    followups.fetch_add(1, Ordering::Relaxed);
+                                    record(&Case { draw: Some(REJOIN), ..c.clone() });
+                                    followups.fetch_add(2, Ordering::Relaxed);
                                 }
                             }
                         });
@@ -871,7 +897,7 @@ pub fn run(tier: Tier, replay: Option<&str>) {
         ],
         "evaluations": ctx.evals(),
         "distinct_nontrivial": states + seen.lock().unwrap().len() as u64,
-        "rule": "Layer A: for every region x {ABP,OTAA} x base state x front-end, one authentic downlink (FOpts and port 0) carrying one command with its full value domain (LinkADRReq DR x TXPower x ChMaskCntl x mask patterns x NbTrans x RFU bit and 2-3 command blocks; RXParamSetupReq all 256 DLSettings x frequency set; RXTimingSetupReq / TXParamSetupReq / DutyCycleReq all 256; NewChannelReq index x frequency set x DrRange bytes; DlChannelReq; every CID 0..255 with 0..5 trailing bytes) or one JoinAccept (all 256 DLSettings x RxDelay x CFList variants); every distinct resulting MAC snapshot is followed by two uplinks with the first RNG draw enumerated over 0..63 and (nb) by a walk through every ADR back-off step down to the lowest data rate (count of unanswered uplinks pre-loaded to one short of each step). Layer B: BFS over histories (uplinks, commands that delete channels / shrink the mask / change DR, junk and oversized frames, set_datarate for region-defined rates, set_adr, joins with minimal CFLists, (Class C) joins during which the JoinAccept or junk is heard by the continuous reception between the request and its windows, ADR back-off from a pre-loaded counter). Layer B also on boards with 1000 / 2500 / 6000 ms receive windows, window offsets and a clock next to its wrap. Layer C: runs of 150 (thorough: 400) consecutive unanswered join attempts on the fixed plans for each join-bias setting. states = distinct post-command snapshots (A) + distinct canonical states (B)",
+        "rule": "Layer A: for every region x {ABP,OTAA} x base state x front-end, one authentic downlink (FOpts and port 0) carrying one command with its full value domain (LinkADRReq DR x TXPower x ChMaskCntl x mask patterns x NbTrans x RFU bit and 2-3 command blocks; RXParamSetupReq all 256 DLSettings x frequency set; RXTimingSetupReq / TXParamSetupReq / DutyCycleReq all 256; NewChannelReq index x frequency set x DrRange bytes; DlChannelReq; every CID 0..255 with 0..5 trailing bytes) or one JoinAccept (all 256 DLSettings x RxDelay x CFList variants); every distinct resulting MAC snapshot is followed by two uplinks with the first RNG draw enumerated over 0..63 and (nb) by a walk through every ADR back-off step down to the lowest data rate (count of unanswered uplinks pre-loaded to one short of each step) and by two OTAA join attempts (unanswered, answered). Layer B: BFS over histories (uplinks, commands that delete channels / shrink the mask / change DR, junk and oversized frames, set_datarate for region-defined rates, set_adr, joins with minimal CFLists, (Class C) joins during which the JoinAccept or junk is heard by the continuous reception between the request and its windows, ADR back-off from a pre-loaded counter). Layer B also on boards with 1000 / 2500 / 6000 ms receive windows, window offsets and a clock next to its wrap. Layer C: runs of 150 (thorough: 400) consecutive unanswered join attempts on the fixed plans for each join-bias setting. states = distinct post-command snapshots (A) + distinct canonical states (B)",
         "layer_a_cases": cases_a.load(Ordering::Relaxed),
         "layer_a_followups": followups.load(Ordering::Relaxed),
         "layer_b_depth": depth,
